@@ -114,3 +114,33 @@ Definition tk_flush_results_buffer : list stm :=
 
 Definition tk_store_result : list stm :=
   [SEv (Call "groups"); SIf [SLoop [SEv (Call "group"); SEv (Call "save_part")]] [SEv (Call "group"); SEv (Call "save_part")]].
+
+Definition tk_add_to_store : list stm :=
+  [SEv (Rd "value"); SIf [SExit] []; SEv (Rd "value"); SEv (Rd "reverse_map"); SIf [SEv (Rd "value"); SEv (Rd "reverse_map"); SExit] []; SEv (Rd "idx"); SIf [SEv (Rd "value"); SEv (Call "allocate_next"); SEv (Wr "idx")] []; SEv (Rd "idx"); SEv (Rd "value"); SEv (Wr "reverse_map"); SEv (Rd "idx"); SExit].
+
+Definition tk_allocate_next : list stm :=
+  [SEv (Call "scan_data"); SLoop [SEv (Rd "value"); SIf [SExit] []]; SEv (Rd "allocations"); SIf [SEv (Rd "allocations"); SLoop [SEv (Rd "data"); SIf [SExit] []]; SRaise "ResultStoreException"] [SEv (Rd "data")]; SEv (Rd "value"); SEv (Wr "data"); SExit].
+
+Definition tk_allocations : list stm :=
+  [SIf [SExit] []; SEv (Rd "current_block"); SIf [SEv (Rd "bsize"); SEv (Call "preallocator"); SEv (Wr "current_block")] [SEv (Rd "data"); SEv (Rd "data"); SEv (Rd "bsize"); SEv (Rd "current_block"); SEv (Rd "data"); SIf [SEv (Rd "bsize"); SEv (Call "preallocator"); SEv (Wr "current_block")] []]; SEv (Rd "current_block"); SExit].
+
+Definition tk_store_add : list stm :=
+  [SEv (Rd "value_store"); SEv (Call "add_to_store"); SEv (Rd "tag_store"); SEv (Call "add_to_store"); SEv (Rd "sequence_id_store"); SEv (Call "add_to_store"); SExit].
+
+Definition tk_save_part : list stm :=
+  [SEv (Rd "value"); SIf [SEv (Rd "field_info"); SIf [SEv (Call "index_to_name"); SEv (Rd "value"); SEv (Call "ensure_type"); SEv (Wr "value")] []] []; SEv (Rd "value"); SEv (Call "store_add"); SIf [] []; SEv (Call "parts_append")].
+
+Definition tk_get_store_id : list stm :=
+  [SEv (Rd "parts"); SLoop [SIf [SIf [SExit] []] [SIf [SExit] []]; SIf [SExit] []]; SExit].
+
+Definition tk_result_get : list stm :=
+  [SEv (Call "get_store_id"); SIf [SEv (Rd "store"); SExit] []; SExit].
+
+Definition tk_collection_add : list stm :=
+  [SLoop [SEv (Call "register_store"); SEv (Call "resolve_source"); SEv (Rd "by_path"); SIf [SEv (Wr "by_path")] [SEv (Rd "by_path")]]].
+
+Definition tk_filtered_dir : list stm :=
+  [SEv (Wr "groups"); SLoop [SEv (Call "isfile"); SIf [SExit] []; SIf [SEv (Call "keep"); SExit] []; SEv (Call "endswith_log"); SIf [SEv (Call "keep")] [SEv (Rd "groups"); SIf [SEv (Wr "groups")] [SEv (Rd "groups")]]]; SEv (Wr "limit"); SEv (Rd "groups"); SLoop [SEv (Rd "groups"); SEv (Call "sorted"); SEv (Rd "limit")]; SExit].
+
+Definition tk_register : list stm :=
+  [SIf [SEv (Rd "search_tags"); SIf [SEv (Rd "search_tags"); SIf [SEv (Rd "search_tags")] []] [SEv (Wr "search_tags")]] []; SIf [] []; SEv (Call "expand_path"); SLoop [SEv (Rd "entries"); SIf [SEv (Rd "entries")] [SEv (Call "get_source_id"); SEv (Wr "entries")]]].
